@@ -226,7 +226,24 @@ func (f *Func) paramObj(name string) types.Object {
 			return o
 		}
 	}
-	return check(f.Type.Params)
+	if o := check(f.Type.Params); o != nil {
+		return o
+	}
+	// renamed since the rules were written: use the recorded position
+	if f.Obj != nil {
+		n := 0
+		var objs []types.Object
+		for _, fld := range f.Type.Params.List {
+			for _, nm := range fld.Names {
+				objs = append(objs, info.Defs[nm])
+				n++
+			}
+		}
+		if i := frozenParamIndex(f.Obj, name, n); i >= 0 && i < len(objs) {
+			return objs[i]
+		}
+	}
+	return nil
 }
 
 // recvObj returns the receiver object of a method.
@@ -376,4 +393,27 @@ func (f *Func) soleReachingDef(obj types.Object, def ast.Node, use Site) bool {
 		}
 	}
 	return ok
+}
+
+// soleFuncParam returns the single parameter of function type of a literal
+// (the `yield` of an iterator body), independent of its name.
+func (f *Func) soleFuncParam() types.Object {
+	var out types.Object
+	n := 0
+	for _, fld := range f.Type.Params.List {
+		for _, nm := range fld.Names {
+			o := f.Info().Defs[nm]
+			if o == nil {
+				continue
+			}
+			if _, ok := o.Type().Underlying().(*types.Signature); ok {
+				out = o
+				n++
+			}
+		}
+	}
+	if n == 1 {
+		return out
+	}
+	return nil
 }
